@@ -52,6 +52,20 @@ def run(ctx):
             level = rng.choice([0, 6, 8, 12])
             lines.append("auto %s %d %s" % (dt, level, G.hexlist(xs)))
             info.append((dt, len(xs), level, "head-%s+tail-%s" % (hk, tk)))
+    # narrow types at sample lengths around the multiples of their unsigned type's range (bool: u8, 16-bit types),
+    # first element below the last: any arithmetic on the length carried out in T::Unsigned wraps exactly here
+    for dt, step in (("bool", 256), ("bool", 256), ("i16", 65536), ("u16", 65536)):
+        for nn in ([step - 1, step, step + 1, step + 2, 2 * step + 1, 3 * step + 1] if step == 256 else [999, 1000, 1001]):
+            P, W, kind, pps = C.DTYPES[dt]
+            if kind == "bool":
+                xs = [0] * (nn - 1) + [1]
+                variants = [xs, [0] + [rng.below(2) for _ in range(nn - 2)] + [1]]
+            else:
+                variants = [[G.from_signed_val(dt, i - 500) for i in range(nn)]]
+            for xs in variants:
+                level = rng.choice([0, 6, 8, 12])
+                lines.append("auto %s %d %s" % (dt, level, G.hexlist(xs)))
+                info.append((dt, len(xs), level, "narrow-type-length"))
     ans = C.harness(lines, timeout=1800)
     mlines, midx = [], []
     for i, (line, (dt, n, level, kind), a) in enumerate(zip(lines, info, ans)):
